@@ -69,13 +69,16 @@ def strip_comments(text: str) -> str:
                 result.append(text[i])  # closing quote
                 i += 1
         elif ch == "#" or text.startswith("//", i):
+            i += 1
             while i < n and text[i] != "\n":
                 i += 1
         elif text.startswith("/*", i):
-            end = text.find("*/", i + 2)
-            end = n if end < 0 else end + 2
-            result.append("\n" * text.count("\n", i, end))
-            i = end
+            i += 2
+            while i < n and not text.startswith("*/", i):
+                if text[i] == "\n":
+                    result.append("\n")
+                i += 1
+            i += 2  # the closing */ (or past the end of an unterminated comment)
         else:
             result.append(ch)
             i += 1
